@@ -62,51 +62,49 @@ Proof.
 Qed.
 
 Lemma columns_loop : forall sd tbl q e rs fuel acc cur cols,
-  (List.length rs < fuel)%nat -> forallb dflt_ok rs = true ->
+  (List.length rs < fuel)%nat ->
   gen_getTableColumns_loop1 sd tbl q e fuel acc (MkCursor cur rs cols) =
   WOk (acc ++ map col_of_tirow rs, MkCursor None [] cols).
 Proof.
-  induction rs as [|r rs IH]; intros fuel acc cur cols Hf Hd; (destruct fuel as [|fuel]; [cbn [List.length] in Hf; lia|]).
+  induction rs as [|r rs IH]; intros fuel acc cur cols Hf; (destruct fuel as [|fuel]; [cbn [List.length] in Hf; lia|]).
   - cbn. now rewrite app_nil_r.
-  - destruct r as [[[[[cid n] ty] nn] df] pk]. cbn [forallb] in Hd. apply andb_true_iff in Hd. destruct Hd as [Hd1 Hd].
+  - destruct r as [[[[[cid n] ty] nn] df] pk].
     cbn [List.length] in Hf.
-    destruct df; try discriminate Hd1; cbn; (rewrite IH by (try lia; assumption)); rewrite <- app_assoc; reflexivity.
+    destruct df; cbn; (rewrite IH by lia); rewrite <- app_assoc; reflexivity.
 Qed.
 
 Definition info_of (sd : srcdb) (n : string) : list tirow :=
   match find_stable n (sd_tables sd) with Some t => st_info t | None => [] end.
 
-Theorem gen_columns_spec : forall sd n, forallb dflt_ok (info_of sd n) = true ->
+Theorem gen_columns_spec : forall sd n,
   gen_getTableColumns sd n = WOk (spec_columns sd n).
 Proof.
-  intros sd n H. unfold gen_getTableColumns, op_QueryTableInfo. cbn [is_nil negb].
-  fold (info_of sd n). rewrite columns_loop; [reflexivity| |exact H].
+  intros sd n. unfold gen_getTableColumns, op_QueryTableInfo. cbn [is_nil negb].
+  fold (info_of sd n). rewrite columns_loop; [reflexivity|].
   unfold cursor_len. cbn [cu_rest]. lia.
 Qed.
 
 Lemma tables_loop : forall sd src q e rs fuel acc cur cols,
   (List.length rs < fuel)%nat ->
-  (forall g, In g rs -> forallb dflt_ok (info_of sd (fst (fst (fst g)))) = true) ->
   gen_GetTableInfo_loop1 sd src q e fuel (MkCursor cur rs cols) acc =
   WOk (MkCursor None [] cols, acc ++ map (spec_table sd) rs).
 Proof.
-  induction rs as [|r rs IH]; intros fuel acc cur cols Hf Hd; (destruct fuel as [|fuel]; [cbn [List.length] in Hf; lia|]).
+  induction rs as [|r rs IH]; intros fuel acc cur cols Hf; (destruct fuel as [|fuel]; [cbn [List.length] in Hf; lia|]).
   - cbn. now rewrite app_nil_r.
   - destruct r as [[[tn cn] gt] id]. cbn [List.length] in Hf.
     cbn [gen_GetTableInfo_loop1 op_Next cu_rest cu_cols cu_cur negb op_ScanGC is_nil].
     cbn [table_zero t_name t_gcol set_t_name set_t_gcol t_cols t_gtype t_srs].
-    rewrite gen_columns_spec by (apply (Hd (tn, cn, gt, id)); now left).
+    rewrite gen_columns_spec.
     cbn [wbind]. rewrite gen_gtype_spec. cbn [wbind]. rewrite gen_srs_spec. cbn [wbind].
-    rewrite IH; [|lia|intros g Hg; apply Hd; now right].
+    rewrite IH; [|lia].
     cbn [map spec_table]. rewrite <- app_assoc. reflexivity.
 Qed.
 
 Theorem gen_table_info_spec : forall src sd,
-  (forall g, In g (sd_gc sd) -> forallb dflt_ok (info_of sd (fst (fst (fst g)))) = true) ->
   gen_GetTableInfo src sd = WOk (spec_tables sd).
 Proof.
-  intros src sd H. unfold gen_GetTableInfo, op_QueryGeometryColumns. cbn [is_nil negb].
-  rewrite tables_loop; [reflexivity| |exact H]. unfold cursor_len. cbn [cu_rest]. apply Nat.lt_succ_diag_r.
+  intros src sd. unfold gen_GetTableInfo, op_QueryGeometryColumns. cbn [is_nil negb].
+  rewrite tables_loop; [reflexivity|]. unfold cursor_len. cbn [cu_rest]. apply Nat.lt_succ_diag_r.
 Qed.
 
 (** ** ReadFeatures *)
@@ -538,13 +536,12 @@ Theorem table_info_of_db : forall src d,
   gen_GetTableInfo src (src_of_db d) = WOk (map (table_of_tab d) (db_tabs d)).
 Proof.
   intros src d ND Hg. rewrite gen_table_info_spec.
-  - f_equal. unfold spec_tables, src_of_db at 2. cbn [sd_gc]. rewrite map_map. apply map_ext_in.
+  { f_equal. unfold spec_tables, src_of_db at 2. cbn [sd_gc]. rewrite map_map. apply map_ext_in.
     intros ts Hin. cbn [spec_table]. unfold table_of_tab. f_equal.
     + unfold spec_columns. fold (info_of (src_of_db d) (td_name (ts_desc ts))). rewrite info_of_db.
       fold (tab_name ts). rewrite (find_tab_nodup _ _ ND Hin). apply cols_of_tirows.
     + apply gtype_roundtrip. rewrite Forall_forall in Hg. now apply Hg.
-    + apply spec_srs_of_db.
-  - intros g Hin. rewrite info_of_db. destruct (find_tab _ _); [apply dflts_of_tirows|reflexivity].
+    + apply spec_srs_of_db. }
 Qed.
 
 (** ** source file -> GetTableInfo -> CreateTables on a new file: same descriptions, same srs rows *)
@@ -640,9 +637,8 @@ Theorem source_tie_schema :
   (forall n, (n <= 7)%N -> spec_gtype (gtype_name n) = n) /\
   (* getSpatialReferenceSystem, getTableColumns, GetTableInfo *)
   (forall sd id, gen_getSpatialReferenceSystem sd id = WOk (spec_srs sd id)) /\
-  (forall sd n, forallb dflt_ok (info_of sd n) = true -> gen_getTableColumns sd n = WOk (spec_columns sd n)) /\
-  (forall src sd, (forall g, In g (sd_gc sd) -> forallb dflt_ok (info_of sd (fst (fst (fst g)))) = true) ->
-     gen_GetTableInfo src sd = WOk (spec_tables sd)) /\
+  (forall sd n, gen_getTableColumns sd n = WOk (spec_columns sd n)) /\
+  (forall src sd, gen_GetTableInfo src sd = WOk (spec_tables sd)) /\
   (* ReadFeatures *)
   (forall t sd st fs,
      find_stable (t_name t) (sd_tables sd) = Some st -> map ti_name (st_info st) = map c_name (t_cols t) ->
